@@ -57,6 +57,23 @@ def _case(draw, tier):
         f = draw(st.sampled_from(["a", "b", "s"]))
         c["term_only"] = [f, enc(draw(st.sampled_from(P_["ints"] if f in ("a", "b") else P_["strs"])))]
     c["share_condition_object"] = draw(st.booleans())
+    if not c.get("term_only") and chance(draw, 1, 6):
+        # a three-step story around ONE comparison object k: first under or_ in an evaluation that is given up part-way,
+        # then as a plain condition in an evaluation that runs to the end, then under or_ again in the description of `the`
+        from ..strategies import Ctx, leaf
+        cfg = _cfg(tier)
+        ctx = Ctx(cfg, c["ents"], len(c["vars"]))
+        v = draw(st.integers(0, len(c["vars"]) - 1))
+        k = ["cmp", draw(st.sampled_from(["==", ">=", "<", "!="])), ["attr", ["var", v], draw(st.sampled_from(["a", "b"]))],
+             ["const", draw(st.sampled_from(ctx.P["ints"]))]]
+        other, flag = leaf(draw, ctx, [v]), leaf(draw, ctx, [v])
+        c["earlier_queries_sharing_comparisons"] = [{"cond": ["or", "nary", [k, other]], "take": draw(st.sampled_from([1, 1, 2]))},
+                                                    {"cond": k, "take": None}]
+        c["all_queries_built_before_any_is_evaluated"] = draw(st.booleans())
+        c["cond"] = ["or", draw(st.sampled_from(["nary", "binl"])), [k, flag]]
+        c["share_terms"] = False
+        c["share_condition_object"] = False
+        c["three_step_story"] = True
     c["abandon_shared_an_first"] = draw(st.sampled_from([0, 1, 1, 2]))
     return c
 
@@ -122,6 +139,8 @@ def check(case) -> Outcome:
 
     if case.get("term_only"):
         classes.append("description_is_a_predicate_form_term")
+    if case.get("three_step_story"):
+        classes.append("comparison_object_under_or_given_up_then_plain_then_under_or")
     shared = bool(case.get("share_condition_object")) and eff.get("cond") is not None and not A.has_kind(eff["cond"], "not")
     if shared:
         # the description's condition OBJECT is afterwards also used to build an `an` query (users reuse conditions)
